@@ -1,4 +1,5 @@
 import WellenModel.Model.Store
+import WellenModel.Proofs.Stream
 /-!
 Block level: the offset table `finish_block` writes lets `Block::get_offset_and_length` cut every signal's bytes back
 out of the block data, for every number of signals and every mix of signals with and without data.
@@ -156,5 +157,121 @@ theorem block_slice (c : Codec) (signals : Array SigEnc) (i : Nat) (d : List Nat
     rfl
   · rw [h2]
     simpa using hs
+
+/-! ### the meta word in front of every signal payload -/
+
+theorem states_ofNat_toNat' (s : Bits.States) : Bits.States.ofNat? s.toNat = some s := by cases s <;> rfl
+theorem states_toNat_lt3 (s : Bits.States) : s.toNat < 3 := by cases s <;> decide
+
+theorem meta_roundtrip_plain (s : Bits.States) : metaDecode (metaEncode s none) = some (s, none) := by
+  cases s <;> decide
+
+/-- a compressed payload of `l` bytes: the decoder learns the kind and a length bound that is at least `l` (the uncompressed
+length rounded up to a multiple of 32), provided the rounded length / 32 fits 32 bits -/
+theorem meta_roundtrip_compressed (s : Bits.States) (l : Nat) (hl : Bits.divCeil l 32 < 2 ^ 32) :
+    metaDecode (metaEncode s (some l)) = some (s, some (Bits.divCeil l 32 * 32)) ∧ l ≤ Bits.divCeil l 32 * 32 := by
+  have hk := states_toNat_lt3 s
+  have hdc : Bits.divCeil (Bits.divCeil l 32 * 32) 32 = Bits.divCeil l 32 := by
+    unfold Bits.divCeil; omega
+  have hge : l ≤ Bits.divCeil l 32 * 32 := by unfold Bits.divCeil; omega
+  refine ⟨?_, hge⟩
+  simp only [metaEncode, hdc]
+  generalize Bits.divCeil l 32 = x at hl
+  have e1 : (x <<< 3) ||| 4 = x * 8 + 4 := by
+    rw [← Nat.shiftLeft_add_eq_or_of_lt (by decide : 4 < 2 ^ 3), Nat.shiftLeft_eq]
+  have e2 : (x * 8 + 4) ||| s.toNat = (x * 8 + 4) + s.toNat := by
+    have : x * 8 + 4 = (2 * x + 1) <<< 2 := by rw [Nat.shiftLeft_eq]; omega
+    rw [this, ← Nat.shiftLeft_add_eq_or_of_lt (by omega : s.toNat < 2 ^ 2)]
+  rw [e1, e2]
+  simp only [metaDecode]
+  have a1 : (x * 8 + 4 + s.toNat) &&& 3 = s.toNat := by
+    have : (3 : Nat) = 2 ^ 2 - 1 := rfl
+    rw [this, Nat.and_two_pow_sub_one_eq_mod]; omega
+  have a2 : ((x * 8 + 4 + s.toNat) >>> 2) &&& 1 = 1 := by
+    have : (1 : Nat) = 2 ^ 1 - 1 := rfl
+    rw [Nat.shiftRight_eq_div_pow]
+    conv => lhs; rw [this, Nat.and_two_pow_sub_one_eq_mod]
+    omega
+  have a3 : (x * 8 + 4 + s.toNat) >>> 3 = x := by rw [Nat.shiftRight_eq_div_pow]; omega
+  rw [a1, states_ofNat_toNat', a3]
+  simp only [a2, ↓reduceIte, Nat.mod_eq_of_lt hl]
+
+end Wellen.Store
+
+namespace Wellen.Store
+open Wellen.Bits
+
+theorem lebWrite_ne_nil (n : Nat) : lebWrite n ≠ [] := by
+  unfold lebWrite; split <;> simp
+
+theorem encStream_length (cs : List (Nat × States × List Nat)) : cs.length ≤ (encStream cs).length := by
+  induction cs with
+  | nil => simp [encStream]
+  | cons c cs ih =>
+    have h1 : 1 ≤ (lebWrite ((c.1 <<< 2) ||| c.2.1.toNat)).length := by
+      cases h : lebWrite ((c.1 <<< 2) ||| c.2.1.toNat) with
+      | nil => exact absurd h (lebWrite_ne_nil _)
+      | cons a r => simp
+    simp only [encStream, encChange, List.map_cons, List.flatten_cons, List.length_append, List.length_cons] at ih ⊢
+    omega
+
+/-- what `finish_signal` emits for a signal with data: the meta word, then the data (compress = id in the model) -/
+theorem finishSignal_payload (c : Codec) (s : SigEnc) (hne : s.dataBytes ≠ []) :
+    ∃ comp, (finishSignal c s).2 = some (lebWrite (metaEncode s.maxStates comp) ++ s.dataBytes) ∧
+      (comp = none ∨ comp = some s.dataBytes.length) := by
+  unfold finishSignal
+  simp only
+  have : s.dataBytes.isEmpty = false := by simpa using hne
+  simp only [this, Bool.false_eq_true, ↓reduceIte]
+  split
+  · exact ⟨none, rfl, Or.inl rfl⟩
+  · split
+    · exact ⟨some s.dataBytes.length, rfl, Or.inr rfl⟩
+    · exact ⟨none, rfl, Or.inl rfl⟩
+
+/-- **one block, end to end**: a multi-bit signal whose recorded data is the chunk stream of the changes `cs` is, after
+`finish_block`, found through the offset table, its meta word decoded, and its stream decoded by `load_signal` into exactly
+those changes — for every number of signals in the block, every number of changes and every compression decision -/
+theorem single_block_load (c : Codec) (signals : Array SigEnc) (i : Nat) (s : SigEnc) (bits : Nat) (tt : List Nat) (t0 : Nat)
+    (cs : List (Nat × States × List Nat))
+    (hs : signals.toList[i]? = some s) (hb : bits ≠ 1) (hdata : s.dataBytes = encStream cs) (hne : cs ≠ [])
+    (hcs : ∀ c ∈ cs, c.2.2.length = divCeil bits c.2.1.bib ∧ ((c.1 <<< 2) ||| c.2.1.toNat) < 2 ^ 32)
+    (hlen : divCeil (encStream cs).length 32 < 2 ^ 32) :
+    let r := finishSignals c signals
+    let b : Block := { startTime := t0, timeTable := tt, offsets := r.2.1, data := r.2.2 }
+    loadSignal { blocks := [b] } i (.bitvec bits) =
+      some { maxStates := s.maxStates,
+             times := (replayFixed bits s.maxStates cs 0 {}).2.timesRev.reverse,
+             entries := (replayFixed bits s.maxStates cs 0 {}).2.entriesRev.reverse } := by
+  have hne' : s.dataBytes ≠ [] := by
+    rw [hdata]
+    cases cs with
+    | nil => exact absurd rfl hne
+    | cons c0 r =>
+      have := encStream_length (c0 :: r)
+      intro h; rw [h] at this; simp at this
+  obtain ⟨comp, hpay, hcomp⟩ := finishSignal_payload c s hne'
+  have hd : (signals.toList.map fun s => (finishSignal c s).2)[i]? = some (some (lebWrite (metaEncode s.maxStates comp) ++ s.dataBytes)) := by
+    rw [List.getElem?_map, hs]; simp [hpay]
+  obtain ⟨off, len, ho, hsl⟩ := block_slice c signals i _ hd
+  simp only at ho hsl ⊢
+  -- `offsetAndLength` does not look at the time fields of the block
+  have ho' : ({ startTime := t0, timeTable := tt, offsets := (finishSignals c signals).2.1, data := (finishSignals c signals).2.2 } : Block).offsetAndLength i = some (off, len) := ho
+  have hmeta : metaDecode (metaEncode s.maxStates comp) = some (s.maxStates, comp.map fun _ => divCeil s.dataBytes.length 32 * 32) := by
+    rcases hcomp with h | h
+    · rw [h]; simp [meta_roundtrip_plain]
+    · rw [h]; simp [(meta_roundtrip_compressed s.maxStates s.dataBytes.length (by rw [hdata]; exact hlen)).1]
+  have hfuel : cs.length < s.dataBytes.length + 1 := by rw [hdata]; have := encStream_length cs; omega
+  simp only [loadSignal, collectMeta, collectMeta.go, ho', hsl, lebRead_lebWrite, hmeta, List.reverse_cons, List.reverse_nil,
+    List.nil_append, List.map_cons, List.map_nil, List.foldl_cons, List.foldl_nil]
+  rcases hcomp with h | h
+  · subst h
+    simp only [Option.map_none]
+    rw [hdata, loadFixed_stream bits hb s.maxStates cs hcs _ 0 {} (by rw [← hdata]; exact hfuel)]
+  · subst h
+    have hge := (meta_roundtrip_compressed s.maxStates s.dataBytes.length (by rw [hdata]; exact hlen)).2
+    have hnot : ¬ (divCeil s.dataBytes.length 32 * 32 < s.dataBytes.length) := by omega
+    simp only [Option.map_some, hnot, ↓reduceIte]
+    rw [hdata, loadFixed_stream bits hb s.maxStates cs hcs _ 0 {} (by rw [← hdata]; exact hfuel)]
 
 end Wellen.Store
